@@ -245,6 +245,27 @@ func (d *Decoder) unmarshal(val reflect.Value, tagType byte) error {
 			default:
 				return errors.New("cannot parse TagByteArray to slice of" + ve.String())
 			}
+		} else if vt.Kind() == reflect.Array {
+			// fixed-size arrays: the encoder writes [N]int8, [N]uint8 and [N]bool as TagByteArray too
+			if vt.Len() != int(aryLen) {
+				return errors.New("cannot parse TagByteArray to " + vt.String() + ", length not match")
+			}
+			switch vt.Elem().Kind() {
+			case reflect.Int8:
+				for i := range ba {
+					val.Index(i).SetInt(int64(int8(ba[i])))
+				}
+			case reflect.Uint8:
+				for i := range ba {
+					val.Index(i).SetUint(uint64(ba[i]))
+				}
+			case reflect.Bool:
+				for i := range ba {
+					val.Index(i).SetBool(ba[i] != 0)
+				}
+			default:
+				return errors.New("cannot parse TagByteArray to " + vt.String())
+			}
 		} else if vt.Kind() == reflect.Interface {
 			val.Set(reflect.ValueOf(ba))
 		} else {
@@ -297,15 +318,21 @@ func (d *Decoder) unmarshal(val reflect.Value, tagType byte) error {
 		if aryLen < 0 {
 			return errors.New("long array len less than 0")
 		}
-		vt := val.Type() // receiver must be []int or []int64
+		vt := val.Type() // receiver must be []int64, []uint64 or a fixed-size array of them
 		if vt.Kind() == reflect.Interface {
 			vt = reflect.TypeOf([]int64{}) // pass
-		} else if vt.Kind() != reflect.Slice {
+		} else if vt.Kind() == reflect.Array && vt.Len() != int(aryLen) {
+			return errors.New("cannot parse TagLongArray to " + vt.String() + ", length not match")
+		} else if k := vt.Kind(); k != reflect.Slice && k != reflect.Array {
 			return errors.New("cannot parse TagLongArray to " + vt.String() + ", it must be a slice")
+		}
+		// fixed-size arrays are filled in place (the encoder writes [N]int64 and [N]uint64 as TagLongArray too)
+		buf := val
+		if vt.Kind() == reflect.Slice {
+			buf = reflect.MakeSlice(vt, int(aryLen), int(aryLen))
 		}
 		switch vt.Elem().Kind() {
 		case reflect.Int64:
-			buf := reflect.MakeSlice(vt, int(aryLen), int(aryLen))
 			for i := 0; i < int(aryLen); i++ {
 				value, err := d.readInt64()
 				if err != nil {
@@ -313,9 +340,7 @@ func (d *Decoder) unmarshal(val reflect.Value, tagType byte) error {
 				}
 				buf.Index(i).SetInt(value)
 			}
-			val.Set(buf)
 		case reflect.Uint64:
-			buf := reflect.MakeSlice(vt, int(aryLen), int(aryLen))
 			for i := 0; i < int(aryLen); i++ {
 				value, err := d.readInt64()
 				if err != nil {
@@ -323,9 +348,11 @@ func (d *Decoder) unmarshal(val reflect.Value, tagType byte) error {
 				}
 				buf.Index(i).SetUint(uint64(value))
 			}
-			val.Set(buf)
 		default:
 			return errors.New("cannot parse TagLongArray to " + vt.String())
+		}
+		if vt.Kind() == reflect.Slice {
+			val.Set(buf)
 		}
 
 	case TagList:
